@@ -218,7 +218,6 @@ func (m *elemModel) newElemLocal(it *absint.Interp, name string, x, y, z *absint
 	return o
 }
 
-
 func zeroSize(t types.Type) bool {
 	switch u := t.Underlying().(type) {
 	case *types.Array:
